@@ -367,6 +367,7 @@ EXPORT wchar_t *_wcstok_s_chk(wchar_t *restrict dest, rsize_t *restrict dmaxp,
         dlen--;
     }
 
+    *ptr = dest; /* the terminating null: nothing is left for the next call */
     *dmaxp = dlen;
     return (ptoken);
 }
